@@ -18,6 +18,16 @@ type additionalPropertiesValidator struct {
 	depth           uint
 }
 
+// formatValidators the schema types which are strings of a format: the value
+// is validated like the value of a node with the same rule "type".
+var formatValidators = map[jschema.SchemaType]constraint.LiteralValidator{
+	jschema.SchemaTypeEmail:    constraint.NewEmail(),
+	jschema.SchemaTypeURI:      constraint.NewUri(),
+	jschema.SchemaTypeUUID:     constraint.NewUuid(),
+	jschema.SchemaTypeDate:     constraint.NewDate(),
+	jschema.SchemaTypeDateTime: constraint.NewDateTime(),
+}
+
 // The constructor can return multiple validators because a type can contain an
 // "OR" rule.
 
@@ -128,6 +138,9 @@ func (v *additionalPropertiesValidator) feedLiteral(jsonLexeme lexeme.LexEvent) 
 		}
 		if !v.schemaType.IsEqualSoft(actualType) {
 			panic(errors.Format(errors.ErrInvalidValueType, actualType, v.schemaType))
+		}
+		if f, ok := formatValidators[v.schemaType]; ok {
+			f.Validate(jsonLexeme.Value()) // can panic
 		}
 		return nil, true
 	}
